@@ -149,4 +149,107 @@ theorem apply_idempotent_resume (idOf : Nat → Id) (app : Nat → Val) (s : Sto
   have b := apply_any_schedule idOf app s inputs sel hsel results hperm
   exact ⟨fun p hp => (a.1 p hp).trans (b.1 p hp).symm, a.2⟩
 
+/-! ### (auditor) directory stores vs SQLite stores: which stored records make `_apply_to` skip an input -/
+
+/-- `select` (all theorems above) is `selectBy` with the directory-store membership test `hasDone` -/
+theorem select_eq_selectBy (idOf : Nat → Id) (s : Store) (inputs : List Nat) (acc : List (Id × Nat)) :
+    select idOf s inputs acc = selectBy (hasDone s) idOf inputs acc := by
+  induction inputs generalizing acc with
+  | nil => rfl
+  | cons m ms ih => simp only [select, selectBy, ih]
+
+theorem applyTo_eq_applyToBy (idOf : Nat → Id) (app : Nat → Val) (s : Store) (inputs order : List Nat) :
+    applyTo idOf app s inputs order = applyToBy hasDone idOf app s inputs order := by
+  simp only [applyTo, applyToBy, select_eq_selectBy]
+
+/-- on a store WITHOUT not-completed records the two membership tests agree … -/
+theorem hasAny_of_hasDone (s : Store) (i : Id) (h : hasDone s i = true) : hasAny s i = true := by
+  unfold hasDone at h; unfold hasAny
+  cases he : entries s i with
+  | nil => rw [he] at h; simp at h
+  | cons a l => simp
+
+/-- … and differ on a stored not-completed record: with the identifier of a previously FAILED input a directory
+store re-selects it (here: and therefore refuses the duplicate), a SQLite store skips both inputs.  Replayed on the real
+stores by the `alias` correspondence stream. The theorems `apply_any_schedule` / `apply_idempotent_resume` are stated for
+the directory-store test only. -/
+theorem sqlite_skips_not_completed_counter :
+    select (fun m => m % 10) [(1, .nc ⟨.error, 2, .exc 1, some 11⟩)] [11, 21] [] = none ∧
+    selectBy (hasAny [(1, .nc ⟨.error, 2, .exc 1, some 11⟩)]) (fun m => m % 10) [11, 21] [] = some [] := by decide
+/-- (auditor) lemma: what `selectBy` adds (any membership test) -/
+theorem selectBy_prefix (done : Id → Bool) (idOf : Nat → Id) (ms : List Nat) (acc sel : List (Id × Nat))
+    (h : selectBy done idOf ms acc = some sel) :
+    ∃ added, sel = acc ++ added ∧ ∀ p ∈ added, idOf p.2 = p.1 ∧ p.2 ∈ ms ∧ done p.1 = false := by
+  induction ms generalizing acc with
+  | nil => simp only [selectBy, Option.some.injEq] at h; exact ⟨[], by simp [h], by simp⟩
+  | cons m ms ih =>
+    unfold selectBy at h
+    split at h
+    · cases h
+    · split at h
+      · obtain ⟨added, e, hp⟩ := ih acc h
+        exact ⟨added, e, fun p hp' => let ⟨a, b, c⟩ := hp p hp'; ⟨a, List.mem_cons_of_mem _ b, c⟩⟩
+      · next hd =>
+        obtain ⟨added, e, hp⟩ := ih _ h
+        refine ⟨(idOf m, m) :: added, by simp [e], ?_⟩
+        intro p hp'
+        rcases List.mem_cons.mp hp' with rfl | hp'
+        · exact ⟨rfl, List.mem_cons_self, by simpa using hd⟩
+        · let ⟨a, b, c⟩ := hp p hp'; exact ⟨a, List.mem_cons_of_mem _ b, c⟩
+
+/-- (auditor) lemma: selected identifiers are distinct (any membership test) -/
+theorem selectBy_nodup (done : Id → Bool) (idOf : Nat → Id) (ms : List Nat) (acc sel : List (Id × Nat))
+    (h : selectBy done idOf ms acc = some sel) (hn : (acc.map (·.1)).Nodup) : (sel.map (·.1)).Nodup := by
+  induction ms generalizing acc with
+  | nil => simp only [selectBy, Option.some.injEq] at h; exact h ▸ hn
+  | cons m ms ih =>
+    unfold selectBy at h
+    split at h
+    · cases h
+    · next hany =>
+      split at h
+      · exact ih acc h hn
+      · apply ih _ h
+        rw [List.map_append, List.nodup_append]
+        refine ⟨hn, by simp, ?_⟩
+        intro a ha b hb
+        simp only [List.map_cons, List.map_nil, List.mem_singleton] at hb
+        subst hb
+        intro e; subst e
+        apply hany
+        obtain ⟨p, hp, e⟩ := List.mem_map.mp ha
+        exact List.any_eq_true.mpr ⟨p, hp, by simp [e]⟩
+
+theorem hasDone_false_of_hasAny_false (s : Store) (i : Id) (h : hasAny s i = false) : hasDone s i = false := by
+  cases hd : hasDone s i with
+  | false => rfl
+  | true => rw [hasAny_of_hasDone s i hd] at h; cases h
+
+/-- (auditor) **Any schedule, SQLite store** (`selectBy (hasAny s)`: inputs with ANY stored record are skipped): every
+selected input gets exactly one record under its own identifier equal to the app's result on it alone, every other
+identifier is untouched — in particular a stored not-completed record of a skipped input stays as it is (it is NOT
+retried) — and the selected inputs had no record at all. -/
+theorem apply_any_schedule_sqlite (idOf : Nat → Id) (app : Nat → Val) (s : Store) (inputs : List Nat)
+    (sel : List (Id × Nat)) (hsel : selectBy (hasAny s) idOf inputs [] = some sel)
+    (results : List (Nat × Val)) (hperm : results.Perm (sel.map (wrapped app))) :
+    (∀ p ∈ sel, entries (writeAll idOf s results) p.1 = [(p.1, app p.2)]) ∧
+    (∀ i, (∀ p ∈ sel, p.1 ≠ i) → entries (writeAll idOf s results) i = entries s i) ∧
+    (∀ p ∈ sel, p.2 ∈ inputs ∧ idOf p.2 = p.1 ∧ entries s p.1 = []) := by
+  obtain ⟨added, e, hp⟩ := selectBy_prefix (hasAny s) idOf inputs [] sel hsel
+  simp only [List.nil_append] at e
+  subst e
+  have hn := selectBy_nodup (hasAny s) idOf inputs [] _ hsel (by simp)
+  have spec : SelSpec idOf s (sel.map (·.2)) sel :=
+    ⟨hn, fun p h => (hp p h).1, fun p h => List.mem_map_of_mem (f := (·.2)) h,
+     fun p h => hasDone_false_of_hasAny_false s _ (hp p h).2.2,
+     fun m hm _ => by
+       obtain ⟨p, hpm, rfl⟩ := List.mem_map.mp hm
+       rw [(hp p hpm).1]; exact hpm⟩
+  have a := apply_any_schedule' idOf app s _ sel spec results hperm
+  refine ⟨a.1, a.2, fun p h => ⟨(hp p h).2.1, (hp p h).1, ?_⟩⟩
+  have := (hp p h).2.2
+  simpa [hasAny] using this
+example : applyToBy hasAny (fun m => m % 10) (fun m => .ok ⟨1, m, some m⟩) [(2, .nc ⟨.error, 2, .exc 1, some 22⟩)] [11, 22, 33] [1, 0]
+    = some [(2, .nc ⟨.error, 2, .exc 1, some 22⟩), (3, .ok ⟨1, 33, some 33⟩), (1, .ok ⟨1, 11, some 11⟩)] := by decide
+
 end CogentModel.C14
